@@ -124,9 +124,11 @@ def random_program(rng, threads, length, maxdepth=3):
         elif r < 0.45:
             ops.append({"ev": "Set", "t": t, "m": m, "name": rng.choice(names), "loc": rng.random() < 0.5})
         elif r < 0.50 and len(depth[t]) < maxdepth:
-            ops.append({"ev": "Enter", "t": t, "m": m, "name": rng.choice(BAD[m]), "loc": rng.random() < 0.5})
+            ops.append({"ev": "Enter", "t": t, "m": m, "name": rng.choice(BAD[m]), "loc": rng.random() < 0.5,
+                        "form": rng.choice(["with", "deco"])})
         elif r < 0.75 and len(depth[t]) < maxdepth:
-            ops.append({"ev": "Enter", "t": t, "m": m, "name": rng.choice(names), "loc": rng.random() < 0.5})
+            ops.append({"ev": "Enter", "t": t, "m": m, "name": rng.choice(names), "loc": rng.random() < 0.5,
+                        "form": rng.choice(["with", "deco"])})
             depth[t].append(m)
         elif depth[t]:
             ops.append({"ev": "Exit", "t": t, "m": depth[t].pop(), "how": rng.choice(["normal", "exception", "base_exception"])})
@@ -207,6 +209,11 @@ def run(chk, opts):
     nedges = sum(len(v) for v in edges.values())
     paths = edge_cover(init, edges, rng)
     progs = [fix_exit_mgr([label_to_op(l) for l in p]) for p in paths]
+    for k, p in enumerate(progs):          # every other covering path uses its contexts as decorators
+        if k % 2:
+            for o in p:
+                if o["ev"] == "Enter":
+                    o["form"] = "deco"
     chk.notes["graph"] = {"states": len(edges), "edges": nedges, "covering_paths": len(paths)}
     os.remove(dot)
     jobs = [{"kind": "programs", "prefix": "g%d_" % k, "threads": 2, "traces": part}
@@ -238,7 +245,7 @@ def run(chk, opts):
     for rid, clause, _ in rej:
         e = by_id.get(rid, {})
         tr = trace_of.get(e.get("tr"), [])
-        ops = [{k: x[k] for k in ("ev", "t", "m", "name", "loc", "how") if k in x} for x in tr if x["ev"] != "Reset"]
+        ops = [{k: x[k] for k in ("ev", "t", "m", "name", "loc", "how", "form") if k in x} for x in tr if x["ev"] != "Reset"]
         kind = "free" if str(e.get("tr", "")).startswith("f") else "programs"
         rec = chk.violation(rid, clause, case={"kind": kind, "ops": ops, "threads": 3 if not str(e.get("tr", "")).startswith("g") else 2},
                             event=e)
